@@ -39,7 +39,7 @@ DEFAULT_PROFILE = dict(
     shifts=(0.0, 0.0, 30.0, 150.0, -30.0, 180.0), tap_types=(None, "Ratio", "Symmetrical", "Ideal"),
     custom_index=True, sn_choices=(1.0, 1.0, 10.0, 100.0, 0.5, 1000.0),
     scaling=True, gen_qlims=True, line_g=True, line_parallel=True, df=True, leakage=True,
-    tap2=False, trafo_oltc_cols=False, gen_qlim_range=(0.02, 0.4), resistive_shunts=False, slack_any_level=False,
+    tap2=False, trafo_oltc_cols=False, gen_qlim_range=(0.02, 0.4), resistive_shunts=False, slack_any_level=False, bus_order=False,
 )
 
 
@@ -391,6 +391,17 @@ def grid(draw, p=None):
         off = draw(st.sampled_from([0, 3, 100]))
         for b, lab in zip(recipe["buses"], perm):
             b["index"] = int(lab) + off
+    if p.get("bus_order") and draw(st.integers(0, 2)) == 0:
+        # creation order of the buses (= row order of net.bus): slack bus first, reversed, or any permutation
+        n = len(recipe["buses"])
+        kind = draw(st.sampled_from(["slack-first", "reversed", "permuted"]))
+        if kind == "slack-first":
+            order = [sb] + [i for i in range(n) if i != sb]
+        elif kind == "reversed":
+            order = list(range(n - 1, -1, -1))
+        else:
+            order = [int(i) for i in draw(st.permutations(range(n)))]
+        recipe["bus_order"] = order
     return normalize(recipe)
 
 
@@ -449,10 +460,20 @@ def build(recipe, pp=None):
     import pandapower as pp_
     pp = pp or pp_
     net = pp.create_empty_network(sn_mva=recipe.get("sn_mva", 1.0), f_hz=recipe.get("f_hz", 50.0))
-    blab = []
-    for b in recipe["buses"]:
-        kw = {k: v for k, v in b.items()}
-        blab.append(pp.create_bus(net, **kw))
+    order = recipe.get("bus_order")
+    if order:
+        # buses are created in the given order; labels stay what they would be otherwise (position or custom index)
+        blab = [None] * len(recipe["buses"])
+        order = [i for i in order if i < len(blab)] + [i for i in range(len(blab)) if i not in order]
+        for pos in order:
+            kw = dict(recipe["buses"][pos])
+            kw.setdefault("index", pos)
+            blab[pos] = pp.create_bus(net, **kw)
+    else:
+        blab = []
+        for b in recipe["buses"]:
+            kw = {k: v for k, v in b.items()}
+            blab.append(pp.create_bus(net, **kw))
     maps = {"bus": blab}
     for e in recipe["el"]:
         kw = {k: v for k, v in e.items() if k != "t"}
